@@ -128,7 +128,7 @@ class QueryJudge:
                     # machine does not apply, if a cache was observed non-prefix-uniform at a lookup)
                     reproduced = (m2 is not None and sorted(set(out[1])) == sorted(set(m2))) or \
                                  (m2 is None and cfg['nonuniform'])
-                    if reproduced and self.known('C05-F1'):
+                    if reproduced and not mentions_flatten(case) and self.known('C05-F1'):
                         continue
                 if cfg_name.startswith('on') and off_name in res['impl'] and mentions_flatten(case) and \
                         all(canon(o[1], case, self.ordered) == want for o in res['impl'][off_name]['outs']
